@@ -1,9 +1,14 @@
 // Package c14: genesis export/import round trip.  A multi-module history is run
 // on app A; at a PRNG-chosen height the real ExportAppStateAndValidators output
-// initialises a fresh app B (InitChain at the same height and time); B is
-// re-exported and compared with the first export module by module; all crisis
-// invariant routes are evaluated on B; then the same follow-up blocks are applied
-// to A and B and transaction results and account balances are compared.
+// initialises a fresh app B (InitChain at the same height; at the time of the
+// exported block or, in half of the histories, LATER: at or before the time of the
+// first follow-up block, as a chain restarted from an export is - with pending
+// committee proposals whose deadlines fall into that gap); B is re-exported and
+// compared with the first export module by module; all crisis invariant routes
+// are evaluated on B; then the same follow-up blocks are applied to A and B and
+// transaction results and account balances are compared.  The histories carry
+// precisebank state (genesis fractional balances and akava transfers through the
+// precisebank keeper), pending proposals with votes of member and token committees.
 package c14
 
 import (
@@ -19,6 +24,7 @@ import (
 	sdkmath "cosmossdk.io/math"
 	abci "github.com/cometbft/cometbft/abci/types"
 	tmproto "github.com/cometbft/cometbft/proto/tendermint/types"
+	"github.com/cosmos/cosmos-sdk/types/module"
 
 	"github.com/kava-labs/kava/app"
 	"kavaverif/drivers/world"
@@ -147,6 +153,41 @@ func initFromExport(gen []byte, cp *tmproto.ConsensusParams, h int64, t time.Tim
 	return B, ""
 }
 
+// validateExport: the imported chain's own export passes every module's genesis validation.
+func validateExport(tApp app.TestApp, export []byte) (res string) {
+	defer func() {
+		if r := recover(); r != nil {
+			res = fmt.Sprint("genesis validation panics: ", r)
+		}
+	}()
+	var gs map[string]json.RawMessage
+	if err := json.Unmarshal(export, &gs); err != nil {
+		return err.Error()
+	}
+	txCfg := app.MakeEncodingConfig().TxConfig
+	names := make([]string, 0, len(app.ModuleBasics))
+	for name := range app.ModuleBasics {
+		names = append(names, name)
+	}
+	sort.Strings(names)
+	for _, name := range names {
+		if name == "ibc" { // ibc-go's own export carries the localhost connection, which its validation refuses; not a module the property names
+			continue
+		}
+		b, ok := app.ModuleBasics[name].(module.HasGenesisBasics)
+		if !ok {
+			continue
+		}
+		if _, present := gs[name]; !present {
+			continue
+		}
+		if err := b.ValidateGenesis(tApp.AppCodec(), txCfg, gs[name]); err != nil {
+			return name + ": " + err.Error()
+		}
+	}
+	return ""
+}
+
 func invariants(tApp app.TestApp, height int64, t time.Time) (route, msg string) {
 	defer func() {
 		if r := recover(); r != nil {
@@ -178,8 +219,40 @@ func runHistory(seed uint64, idx, nBlocks int, cnt *Counters) (*finding, int, []
 	r := NewRng(seed, uint64(idx)+0xC14)
 	cfg := world.RandomConfig(r)
 	w := world.NewWorld(cfg, seed*1000+uint64(idx), cnt)
-	A := w.Start(NewApp())
+	w.CommitteeTraffic = true
+	var A app.TestApp
+	if pnc := func() (pnc string) {
+		defer func() {
+			if rr := recover(); rr != nil {
+				pnc = fmt.Sprint(rr)
+			}
+		}()
+		A = w.Start(NewApp())
+		return ""
+	}(); pnc != "" {
+		// the world's genesis passes every module's genesis validation: InitChain must accept it
+		return &finding{1, "import-panics:" + classify(pnc), "InitChain of the history's own (valid) genesis: " + pnc, cfg}, 0, nil
+	}
 	height, t := int64(2), world.Genesis0
+	frac := func(apps ...app.TestApp) *finding { // an akava transfer through precisebank, the same on every app
+		if !r.Chance(1, 3) {
+			return nil
+		}
+		op := w.GenFracOp(r)
+		var first string
+		for i, X := range apps {
+			res := w.ApplyFracOp(X, height, t, op)
+			if i == 0 {
+				first = res
+				if res == "" {
+					cnt.Inc("hook-ok:precisebank.send")
+				}
+			} else if (res == "") != (first == "") {
+				return &finding{height, "followup-tx-outcome-differs:precisebank.send", fmt.Sprintf("%+v: original %q imported %q", op, first, res), cfg}
+			}
+		}
+		return nil
+	}
 	nTx := 0
 	var sample []string
 	exportAt := 1 + r.Intn(nBlocks)
@@ -209,6 +282,7 @@ func runHistory(seed uint64, idx, nBlocks int, cnt *Counters) (*finding, int, []
 			cnt.Inc("history-ended-by-panic")
 			return nil, nTx, sample
 		}
+		frac(A)
 	}
 	// ---- export at committed height `height`
 	cnt.Inc("exports")
@@ -229,7 +303,68 @@ func runHistory(seed uint64, idx, nBlocks int, cnt *Counters) (*finding, int, []
 	}(); f != nil {
 		return f, nTx, sample
 	}
-	B, pnc := initFromExport(e1, cp, height, t)
+	// ---- the time of the first follow-up block, and the import time
+	ctxA := A.NewContext(true, tmproto.Header{Height: height, Time: t, ChainID: app.TestChainId})
+	pending := A.GetCommitteeKeeper().GetProposals(ctxA)
+	if len(pending) > 0 {
+		cnt.Inc("exports-with-pending-proposals")
+		if len(A.GetCommitteeKeeper().GetVotes(ctxA)) > 0 {
+			cnt.Inc("exports-with-pending-proposals-and-votes")
+		}
+	}
+	if pb := A.GetPrecisebankKeeper(); !pb.GetRemainderAmount(ctxA).IsZero() || !A.GetBankKeeper().GetBalance(ctxA, A.GetAccountKeeper().GetModuleAddress("precisebank"), "ukava").IsZero() {
+		cnt.Inc("exports-with-precisebank-reserve")
+	}
+	gap0 := world.NextGap(r)
+	later := r.Chance(1, 2)
+	var aimed *time.Time
+	if later && len(pending) > 0 && r.Chance(3, 4) { // the first follow-up block lands at or after a pending proposal's deadline
+		dl := pending[r.Intn(len(pending))].Deadline
+		if dl.After(t) {
+			off := []time.Duration{0, time.Nanosecond, time.Second, time.Duration(1 + r.Intn(3_600_000_000_000))}[r.Intn(4)]
+			gap0 = dl.Add(off).Sub(t)
+			aimed = &dl
+		}
+	}
+	tNext := t.Add(gap0)
+	tImport := t
+	if later {
+		tImport = tNext
+		if r.Chance(1, 2) { // between the exported block and the first follow-up block (at or after the aimed deadline)
+			lo := t
+			if aimed != nil {
+				lo = *aimed
+			}
+			if span := tNext.Sub(lo); span > 0 {
+				tImport = lo.Add(time.Duration(r.Int63n(int64(span) + 1)))
+			}
+		}
+		// pricefeed's InitGenesis drops the posts that have expired by the import time and recomputes the
+		// current prices from the rest, while the original chain keeps its current prices until its next
+		// end blocker: with a post expiring inside the gap the two chains legitimately begin the next
+		// block with different prices.  Such histories import at the export time.
+		for _, m := range A.GetPriceFeedKeeper().GetMarkets(ctxA) {
+			for _, pp := range A.GetPriceFeedKeeper().GetRawPrices(ctxA, m.MarketID) {
+				if pp.Expiry.After(t) && !pp.Expiry.After(tImport) {
+					later = false
+				}
+			}
+		}
+		if !later {
+			tImport = t
+			cnt.Inc("later-import-skipped:oracle-post-expires-in-the-gap")
+		}
+	}
+	if later {
+		cnt.Inc("imports-at-a-later-time")
+		for _, p := range pending {
+			if !p.Deadline.After(tImport) {
+				cnt.Inc("imports-at-or-after-a-pending-proposal-deadline")
+				break
+			}
+		}
+	}
+	B, pnc := initFromExport(e1, cp, height, tImport)
 	if pnc != "" {
 		return &finding{height, "import-panics:" + classify(pnc), pnc, cfg}, nTx, sample
 	}
@@ -238,7 +373,13 @@ func runHistory(seed uint64, idx, nBlocks int, cnt *Counters) (*finding, int, []
 		return &finding{height, "re-export-fails", err.Error(), cfg}, nTx, sample
 	}
 	var raceNote *finding
-	if d := compareExports(e1, ex2.AppState, t); len(d) > 0 {
+	if err := validateExport(A, e1); err != "" {
+		return &finding{height, "export-invalid", err, cfg}, nTx, sample
+	}
+	if err := validateExport(B, ex2.AppState); err != "" {
+		return &finding{height, "re-export-invalid", err, cfg}, nTx, sample
+	}
+	if d := compareExports(e1, ex2.AppState, tImport); len(d) > 0 {
 		// The SDK exports modules concurrently (ExportGenesisForModules starts one goroutine per
 		// module on the same cached context) and hard/cdp exports synchronise incentive claims
 		// through their hooks while incentive exports its claims: whether a claim is exported
@@ -259,18 +400,22 @@ func runHistory(seed uint64, idx, nBlocks int, cnt *Counters) (*finding, int, []
 		cnt.Inc("export-race-incentive-claim-sync")
 		raceNote = &finding{height, "export-race-incentive-claim-sync", strings.Join(d, "\n"), cfg}
 	}
-	if route, msg := invariants(B, height, t); route != "" {
+	if route, msg := invariants(B, height, tImport); route != "" {
 		return &finding{height, "imported-invariant-broken:" + route, msg, cfg}, nTx, sample
 	}
 	// raw store comparison of the Kava modules (and bank): the imported state must be the
 	// same state, including derived indexes that the genesis JSON does not show
-	if n, m := world.ExtendedInvariants(B, B.NewContext(true, tmproto.Header{Height: height, Time: t, ChainID: app.TestChainId})); n != "" {
+	if n, m := world.ExtendedInvariants(B, B.NewContext(true, tmproto.Header{Height: height, Time: tImport, ChainID: app.TestChainId})); n != "" {
 		return &finding{height, "imported-state-incoherent:" + n, m, cfg}, nTx, sample
 	}
 	// ---- same follow-up blocks on both
 	for k := 0; k < 6; k++ {
 		height++
-		t = t.Add(world.NextGap(r))
+		if k == 0 {
+			t = tNext
+		} else {
+			t = t.Add(world.NextGap(r))
+		}
 		sa, pa := world.Begin(A, height, t)
 		sb, pb := world.Begin(B, height, t)
 		if pa != pb {
@@ -287,6 +432,9 @@ func runHistory(seed uint64, idx, nBlocks int, cnt *Counters) (*finding, int, []
 			return nil, nTx, sample
 		}
 		_, _ = sa, sb
+		if f := frac(A, B); f != nil {
+			return f, nTx, sample
+		}
 		w.Height, w.Time = height, t
 		txs, descs := w.GenBlockTxs(r, A, 2+r.Intn(6))
 		ra := world.Deliver(A, height, txs)
@@ -338,7 +486,7 @@ func thresholdFlip(desc, logs string) bool {
 		return false
 	}
 	l := strings.ToLower(logs)
-	for _, k := range []string{"minimum borrow limit", "debt floor", "loan-to-value", "ltv", "collateral ratio", "collateralization", "exceeds", "insufficient", "below the minimum"} {
+	for _, k := range []string{"minimum borrow limit", "debt floor", "loan-to-value", "ltv", "collateral ratio", "collateralization", "exceeds", "insufficient", "below the minimum", "below minimum"} {
 		if strings.Contains(l, k) {
 			return true
 		}
@@ -364,7 +512,7 @@ func run(o Opts) (*Result, error) {
 		nBlocks = 20
 	}
 	res := &Result{Property: "C14", Seed: o.Seed,
-		Rule: fmt.Sprintf("multi-module histories of up to %d blocks; at a PRNG-chosen height the real export initialises a fresh app, which is re-exported and compared module by module (expired oracle posts dropped), all crisis invariants are evaluated on it, and 3 common follow-up blocks are applied to both; non-trivial when the exported state contains at least one open position (cdp / hard / swap / savings / earn / bep3 swap / auction); distinct by (seed, history index)", nBlocks)}
+		Rule: fmt.Sprintf("multi-module histories of up to %d blocks; (with precisebank fractional balances from genesis and from akava transfers, pending proposals and votes of member and token committees); at a PRNG-chosen height the real export (validated module by module) initialises a fresh app at the export time or, in half of the histories, at a later time up to the first follow-up block (aimed at or past the deadline of a pending proposal), which is re-exported (validated, compared module by module, oracle posts expired at import time dropped), all crisis invariants are evaluated on it, and 6 common follow-up blocks are applied to both; non-trivial when the exported state contains at least one open position (cdp / hard / swap / savings / earn / bep3 swap / auction); distinct by (seed, history index)", nBlocks)}
 	cnt := NewCounters()
 	if o.Replay != "" {
 		bz, err := os.ReadFile(o.Replay)
@@ -410,5 +558,11 @@ func run(o Opts) (*Result, error) {
 		}
 	}
 	res.Counters = cnt.Map()
+	for _, g := range []string{"imports-at-a-later-time", "imports-at-or-after-a-pending-proposal-deadline", "exports-with-pending-proposals-and-votes",
+		"exports-with-precisebank-reserve", "hook-ok:precisebank.send", "tx-ok:committee.vote.c2", "tx-ok:committee.vote.c3", "followup-blocks"} {
+		if res.Counters[g] == 0 {
+			res.QualityGate = append(res.QualityGate, g)
+		}
+	}
 	return res, nil
 }
